@@ -131,6 +131,8 @@ func main() {
 			}},
 			{"util/util.go", []fn{{"", "BinSearchInRange", "binSearchInRange"}}},
 			{"parser/token_literal.go", []fn{{"", "GetHint", "getHint"}}},
+			{"parser/token_range.go", []fn{{"", "parseRangeTerm", "seqqlParseRangeTerm"}, {"", "parseSeqQLTokenRange", "seqqlParseTokenRange"}}},
+			{"parser/token_parser.go", []fn{{"tokenParser", "parseRangeTerm", "legacyParseRangeTerm"}}},
 			{"frac/sealed_index.go", []fn{{"sealedTokenIndex", "GetTIDsByTokenExpr", "sealedGetTIDs"}}},
 		}
 		for _, fl := range files {
@@ -150,5 +152,5 @@ func main() {
 				e.Strs(x.def, skeleton(f, fd), fl.path+": statement skeleton of "+x.name)
 			}
 		}
-	}, "pattern/substring.go", "pattern/pattern.go", "frac/token/table.go", "frac/token/provider.go", "frac/token/table_loader.go", "frac/token/table_entry.go", "frac/active_token_list.go", "util/util.go", "parser/token_literal.go", "frac/sealed_index.go")
+	}, "pattern/substring.go", "pattern/pattern.go", "frac/token/table.go", "frac/token/provider.go", "frac/token/table_loader.go", "frac/token/table_entry.go", "frac/active_token_list.go", "util/util.go", "parser/token_literal.go", "parser/token_range.go", "parser/token_parser.go", "frac/sealed_index.go")
 }
